@@ -65,6 +65,7 @@ static void scenario(const vh::Json& sc, vh::Out& out, vh::Rng& rng, const vh::A
         Flow flow(IPv4Address("10.0.0.2"), 80, 1000);
         if (via_flow) {
             flow.enable_ack_tracking();
+            if (rng.below(3) == 0) flow.ignore_data_packets();      // the user does not want this direction's data: its acknowledgements are tracked all the same
             // the flow's own SYN+ACK initialises its tracker with the acknowledged ISN
             // ... either as the passive side (SYN|ACK acknowledging the peer's ISN) or as the active side (a SYN that acknowledges nothing,
             // then the ACK that completes the handshake and acknowledges the peer's ISN for the first time)
